@@ -2,7 +2,8 @@
 """Robustness exercises (maintenance helper): further behaviour-preserving whole-tree rewrites, each run through all claimed
 checks via overlays.  modes: aug (x += e -> x = x + e for plain names), ret (return E -> tmp = E; return tmp for non-trivial E),
 pass (insert a no-op statement after every simple statement), mirror (a < b -> b > a, a == b -> b == a, ... for single
-comparisons of side-effect-free operands), demorgan (if a and b -> if not (not a or not b), if a or b -> if not (not a and not b)).   usage: python3-vt tools/robust_misc.py <mode> [PROP ...]"""
+comparisons of side-effect-free operands), demorgan (if a and b -> if not (not a or not b), if a or b -> if not (not a and not b)), kw2pos (calls of package functions /
+methods with a package-wide unique name whose arguments are all given by keyword, in parameter order: keywords dropped), pos2kw (the reverse: positional arguments of such calls named).   usage: python3-vt tools/robust_misc.py <mode> [PROP ...]"""
 import ast, os, sys, json
 sys.path.insert(0, os.path.dirname(os.path.dirname(os.path.abspath(__file__))))
 from kdverif.__main__ import run_check
@@ -25,6 +26,34 @@ class T(ast.NodeTransformer):
         if mode == "mirror" and len(node.ops) == 1 and type(node.ops[0]) in flip and simple(node.left) and simple(node.comparators[0]):
             T.n += 1
             return ast.copy_location(ast.Compare(left=node.comparators[0], ops=[flip[type(node.ops[0])]()], comparators=[node.left]), node)
+        return node
+    def visit_Call(self, node):
+        self.generic_visit(node)
+        if mode == "pos2kw" and node.args and not node.keywords and not any(isinstance(a, ast.Starred) for a in node.args):
+            name = node.func.id if isinstance(node.func, ast.Name) else (
+                node.func.attr if isinstance(node.func, ast.Attribute) and isinstance(node.func.value, ast.Name)
+                and node.func.value.id == "self" else None)
+            sig = SIGS.get(name)
+            if sig is not None:
+                params = sig[1:] if isinstance(node.func, ast.Attribute) else sig
+                if len(node.args) <= len(params):
+                    T.n += 1
+                    return ast.copy_location(ast.Call(func=node.func, args=[], keywords=[
+                        ast.keyword(arg=p_, value=a_) for p_, a_ in zip(params, node.args)]), node)
+            return node
+        if mode != "kw2pos" or node.args or not node.keywords or any(k.arg is None for k in node.keywords):
+            return node
+        name = node.func.id if isinstance(node.func, ast.Name) else (
+            node.func.attr if isinstance(node.func, ast.Attribute) and isinstance(node.func.value, ast.Name)
+            and node.func.value.id == "self" else None)
+        sig = SIGS.get(name)
+        if sig is None:
+            return node
+        params = sig[1:] if isinstance(node.func, ast.Attribute) else sig
+        given = [k.arg for k in node.keywords]
+        if given == params[:len(given)]:
+            T.n += 1
+            return ast.copy_location(ast.Call(func=node.func, args=[k.value for k in node.keywords], keywords=[]), node)
         return node
     def visit_If(self, node):
         self.generic_visit(node)
@@ -59,6 +88,18 @@ class T(ast.NodeTransformer):
         return node
 
 prog = Program("/repo", inline=False, normal=False)
+# signatures of functions / methods whose name is defined exactly once in the package (no *args / **kwargs / keyword-only)
+SIGS, _seen = {}, {}
+for rel, src in prog.files.items():
+    for y in ast.walk(ast.parse(src)):
+        if isinstance(y, (ast.FunctionDef, ast.AsyncFunctionDef)):
+            _seen[y.name] = _seen.get(y.name, 0) + 1
+            a = y.args
+            if not (a.vararg or a.kwarg or a.kwonlyargs or a.posonlyargs):
+                SIGS[y.name] = [x.arg for x in a.args]
+            else:
+                SIGS[y.name] = None
+SIGS = {k: v for k, v in SIGS.items() if v is not None and _seen[k] == 1 and not k.startswith("__")}
 ov = {}
 for rel, src in prog.files.items():
     tree = T().visit(ast.parse(src))
